@@ -7,7 +7,7 @@ from gen.docgen import R, PKG_RELS
 
 ROOT_DIRS = ['docs', 'w', 'content/main', 'Word', 'x_y']
 SUB_DIRS = ['', '', 'sub', 'parts/inner', 'h', '_x']
-NAMES = ['main', 'doc1', 'part', 'α', 'body.part', 'Document']
+NAMES = ['main', 'doc1', 'part', 'α', 'body.part', 'Document', 'chart%201', 'my part', 'a+b', '100%25done', 'x&y']      # names are member names, taken literally (no percent-decoding)
 
 
 def rels_path(part):
